@@ -291,6 +291,7 @@ impl Monitor for C07 {
             "msgkind_distribution_other_refused",
             "directed_scenarios_completed",
             "directed_expiry_scenarios_completed",
+            "execute_calls_with_funds_attached",
             "migrations_run",
         ]
     }
@@ -348,6 +349,11 @@ impl Monitor for C07 {
                 pre = p.snap();
             }
             let (sender, op) = gen_op(&mut h.rng, &p, &pre);
+            // now and then the caller attaches coins to the proxy call: what is relayed stays what was submitted
+            p.attach = if h.rng.clone().chance(1, 7) { vec![cosmwasm_std::coin(1 + (i as u128 % 50), "uatom")] } else { vec![] };
+            if !p.attach.is_empty() && matches!(op, Op::Execute { .. }) {
+                h.out.count("execute_calls_with_funds_attached");
+            }
             if !self.step(h, &mut p, &mut pre, &sender, &op) {
                 return;
             }
